@@ -14,8 +14,10 @@ SysOfJson(j) == [nw |-> j.nw, cen |-> j.cen, rs |-> SeqSet(j.rs), H |-> FunOfLis
                  X |-> FunOfLists(j.rs, j.X), spinor |-> j.spinor]
 SocOfJson(j) == [up |-> SysOfJson(j.up), dn |-> SysOfJson(j.dn), hassoc |-> j.hassoc, rsS |-> SeqSet(j.rsS),
                  D |-> [st \in {"00", "11", "01"} |-> FunOfLists(j.rsS, j.D[st])], P |-> j.P, al |-> j.al]
-SysEq(a, b) == /\ a.nw = b.nw /\ a.cen = b.cen /\ a.rs = b.rs /\ a.hasX = b.hasX
-               /\ \A R \in a.rs : a.H[R] = b.H[R] /\ (a.hasX => a.X[R] = b.X[R])
+SysEq(a, b) == /\ a.nw = b.nw /\ a.cen = b.cen /\ a.hasX = b.hasX
+               /\ SameOnAllR(a, b) /\ (a.hasX => SameXOnAllR(a, b))
+(* imported tight-binding models: the statement is about band energies, so the centres count modulo lattice vectors *)
+SysEqModCell(a, b) == a.nw = b.nw /\ SameCentresModCell(a, b) /\ SameOnAllR(a, b)
 (* quarter k-points in the directions that carry R-vectors *)
 KD(rs, c) == IF \E R \in rs : R[c] # 0 THEN 0..3 ELSE {0}
 KSof(rs) == {<<k1, k2, k3>> : k1 \in KD(rs, 1), k2 \in KD(rs, 2), k3 \in KD(rs, 3)}
@@ -43,13 +45,22 @@ ToPlainClauses == LET soc == SocOfJson(Rec.soc)  o == SysOfJson(Rec.out) IN
    [ equals_spec |-> SysEq(o, ToPlainR(soc)),
      laws        |-> ToPlainRLaws(soc, o, KSof(o.rs)) ]
 PauliClauses ==
-   [ equals_spec |-> PauliRotExact(Rec.m, Rec.n) /\ Rec.P = PauliRot(Rec.m, Rec.n),
+   [ info_equals_spec |-> PauliRotExact(Rec.m, Rec.n) /\ Rec.P = PauliRot(Rec.m, Rec.n),   \* one valid choice, not required
      algebra     |-> PauliAlgebra(Rec.P),
      axis        |-> SpinAlongAxisDiagonal(Rec.P, Axis(Rec.m, Rec.n)) ]
 InterpClauses == LET s0 == SysOfJson(Rec.s0)  s1 == SysOfJson(Rec.s1)  o == SysOfJson(Rec.out) IN
    [ exact       |-> InterpExact(s0, s1, Rec.a, Rec.den),
      equals_spec |-> SysEq(o, Interpolate(s0, s1, Rec.a, Rec.den)),
      laws        |-> InterpolateLaws(s0, s1, Rec.a, Rec.den, o, KSof(o.rs)) ]
+
+(* SystemInterpolatorSOC(soc0, soc1).interpolate(a/den): H(k) of Data_K_soc is affine in alpha and reproduces the endpoints *)
+InterpSocClauses == LET s0 == SocOfJson(Rec.soc0)  s1 == SocOfJson(Rec.soc1) IN
+   [ affine    |-> \A j \in 1..Len(Rec.ks) :
+                      MatScale(GInt(Rec.den), Rec.hk[j]) = MatAdd(MatScale(GInt(Rec.den - Rec.a), HkSOC(s0, Rec.ks[j])),
+                                                                  MatScale(GInt(Rec.a), HkSOC(s1, Rec.ks[j]))),
+     endpoints |-> /\ Rec.a = 0 => \A j \in 1..Len(Rec.ks) : Rec.hk[j] = HkSOC(s0, Rec.ks[j])
+                   /\ Rec.a = Rec.den => \A j \in 1..Len(Rec.ks) : Rec.hk[j] = HkSOC(s1, Rec.ks[j]),
+     hermitian |-> \A j \in 1..Len(Rec.ks) : IsHermitian(Rec.hk[j]) ]
 
 (* builders: the call history is run on the specification's builder and compared with the recorded internal state and import *)
 PtbStep(m, st) == CASE st.f = "set_onsite_all" -> PtbSetOnsiteAll(m, st.vals, st.mode)
@@ -62,18 +73,18 @@ PtbClauses == LET m == RunPtb  imp == SysOfJson(Rec.imp) IN
                            Rec.steps[j].f = "set_hop" /\ PtbSetHopRaises(FoldLeft(PtbStep, PtbNew(Rec.norb, Rec.ns, Rec.pos), SubSeq(Rec.steps, 1, j - 1)),
                                                                           Rec.steps[j].i, Rec.steps[j].j, Rec.steps[j].R, Rec.steps[j].acp)],
      builder_state |-> m.site = Rec.site /\ m.tab = SeqSet(Rec.tab),
-     import_equals_spec |-> SysEq(imp, PtbImport(m)),
-     import_is_source   |-> SameSystem(imp, PtbSource(m)) /\ HermSys(imp) ]
+     import_equals_spec |-> SysEqModCell(imp, PtbImport(m)),
+     import_is_source   |-> SysEqModCell(imp, PtbSource(m)) /\ HermSys(imp) ]
 RUrec == {<<x, y, 0>> : x \in -2..2, y \in -2..2}
 TbmStep(m, st) == CASE st.f = "add_hop" -> TbmAddHop(m, st.amp, st.i, st.j, st.R)
                     [] st.f = "add_on_site" -> TbmAddOnSite(m, st.vals)
 RunTbm == FoldLeft(TbmStep, TbmNew(Rec.size, Rec.pos, Rec.onsite, RUrec), Rec.steps)
 TbmClauses == LET m == RunTbm  imp == SysOfJson(Rec.imp) IN
    [ builder_state |-> m.keys = SeqSet(Rec.keys) /\ \A K \in m.keys : m.hop2[K] = Rec.hop2[IndexIn(Rec.keys, K)],
-     import_equals_spec |-> TbmImportExact(m) /\ SysEq(imp, TbmImport(m)),
+     import_equals_spec |-> TbmImportExact(m) /\ SysEqModCell(imp, TbmImport(m)),
      import_is_source   |-> \A R \in DOMAIN m.sem : Ext(imp.rs, imp.H, imp.nw, R) = m.sem[R] ]
 (* two builders that received the same hoppings: same system *)
-PairClauses == [ same_system |-> SameSystem(SysOfJson(Rec.a), SysOfJson(Rec.b)) ]
+PairClauses == [ same_system |-> SysEqModCell(SysOfJson(Rec.a), SysOfJson(Rec.b)) ]
 
 (* corner energies: the recorded characteristic polynomials of the code's corner spectra *)
 CornerList == <<<<0, 0, 0>>, <<0, 0, 1>>, <<0, 1, 0>>, <<0, 1, 1>>, <<1, 0, 0>>, <<1, 0, 1>>, <<1, 1, 0>>, <<1, 1, 1>>>>
@@ -103,6 +114,7 @@ Clauses == CASE Rec.fn = "reorder" -> ReorderClauses
              [] Rec.fn = "toplain" -> ToPlainClauses
              [] Rec.fn = "pauli" -> PauliClauses
              [] Rec.fn = "interp" -> InterpClauses
+             [] Rec.fn = "interp_soc" -> InterpSocClauses
              [] Rec.fn = "ptb" -> PtbClauses
              [] Rec.fn = "tbm" -> TbmClauses
              [] Rec.fn = "pair" -> PairClauses
